@@ -2,7 +2,7 @@
    (Parse;Notify / purge / Capture / Release) emits, for every address, exactly the notifications that the
    changes of the C04 reference model owe for it, offline-by-supersession before the online notification. *)
 From PV Require Import Base.Prelude Model.Tables Spec.HostTrackingInv Spec.HostTracking Spec.HostTrackingNotif
-  Proofs.Tables Proofs.TablesRefine Proofs.TablesPred Proofs.TablesC04 Proofs.TablesNotif.
+  Proofs.Tables Proofs.TablesRefine Proofs.TablesPred Proofs.TablesC04 Proofs.TablesNotif Proofs.TablesOffers.
 Open Scope N_scope.
 
 (* ------------------------------------------------------------------ *)
@@ -314,6 +314,120 @@ Proof.
     cbn [hosts set_lastf] in L. rewrite LK, ip_eqb_refl in L. inversion L; subst hk. exact M0.
 Qed.
 
+(* offers and ownership after Parse *)
+Lemma rx_offers c s f now m k : InvP s -> host_event c f = Some (m, k) ->
+  forall m', eoffer (fst (step c s (Rx f now))) m' =
+    if hadb s m' && negb (hadb (fst (step c s (Rx f now))) m') then IPnone else eoffer s m'.
+Proof.
+  intros I HE m'. destruct (find_or_create_total_rx c f now s I) as ([s1 fr] & R).
+  assert (S1 : fst (step c s (Rx f now)) = set_lastf (Some fr) s1) by (cbn [step]; rewrite R; reflexivity).
+  rewrite S1. unfold rx in R. rewrite HE in R.
+  destruct (find_or_create m k now s) as [[s0 b]| | |] eqn:F; simpl in R; try discriminate.
+  pose proof (foc_offers _ _ _ _ _ _ I F m') as E0.
+  assert (SM : Same s0 (set_lastf (Some fr) s1)).
+  { destruct (negb (host_online k s0)); inversion R; subst;
+      [eapply Same_trans; [apply online_transition_Same|apply Same_ext; reflexivity] | apply Same_ext; reflexivity]. }
+  destruct SM as [A B]. rewrite A, B. exact E0.
+Qed.
+
+Lemma update_name_chan kd k name s : chan (update_name kd k name s) = chan s.
+Proof. unfold update_name. destruct (hlookup k (hosts s)); auto. destruct (merge _ _) as [nm [|]]; reflexivity. Qed.
+
+(* what DHCPv4Update leaves behind *)
+Lemma update_step_facts c s m k name now :
+  InvR s -> is_valid k && negb (is_unspecified k) = true ->
+  let s' := fst (step c s (DHCPv4Update m k name now)) in
+  let cur := currentb (abs s) m k in
+  let base := match hlookup k (hosts s) with Some h => if h_mac h =? m then h_names h else names0 | None => names0 end in
+  let chg := snd (merge (n_dhcp base) name) in
+  InvR s' /\ chan s' = chan s /\
+  (exists hk, hlookup k (hosts s') = Some hk /\ h_online hk = true /\ h_mac hk = m /\
+     h_dirty hk = (match hlookup k (hosts s) with Some h => if h_mac h =? m then h_dirty h else true | None => true end) || chg || negb cur /\
+     h_names hk = if chg then nset KDhcp name base else base) /\
+  (forall k', k' <> k -> hlookup k' (hosts s') = option_map supersede (hlookup k' (hosts s)) \/
+                         hlookup k' (hosts s') = hlookup k' (hosts s)) /\
+  (forall x, abs s' x = sight m k now (abs s) x) /\
+  (forall m', eoffer s' m' = if m' =? m then k else if hadb s m' && negb (hadb s' m') then IPnone else eoffer s m').
+Proof.
+  intros I V. cbn zeta.
+  destruct (dhcp4_update_total m k name now s (proj1 I)) as ([s' e] & R).
+  assert (S' : fst (step c s (DHCPv4Update m k name now)) = s') by (cbn [step]; rewrite R; destruct e; reflexivity).
+  rewrite S'. clear S'.
+  pose proof (dhcp4_update_InvR _ _ _ _ _ _ _ R I) as I'.
+  pose proof (dhcp4_update_refine _ _ _ _ _ _ _ I V R) as AB.
+  unfold dhcp4_update in R.
+  assert (V' : negb (is_valid k) || is_unspecified k = false).
+  { destruct (is_valid k), (is_unspecified k); simpl in *; congruence. }
+  rewrite V' in R.
+  destruct (find_or_create m k now s) as [[s0 b]| | |] eqn:F; simpl in R; try discriminate.
+  pose proof (find_or_create_InvR _ _ _ _ _ _ F I) as I0.
+  pose proof (find_or_create_char _ _ _ _ _ _ F) as CH.
+  pose proof (foc_chan _ _ _ _ _ _ F) as CC.
+  pose proof (foc_current m k now s) as CUR. fold (currentb (abs s) m k) in CUR.
+  set (h0 := match hlookup k (hosts s) with
+             | Some h => if h_mac h =? m then set_last now h else new_host m k now
+             | None => new_host m k now end) in *.
+  assert (L0 : hlookup k (hosts s0) = Some h0) by (rewrite CH, ip_eqb_refl; reflexivity).
+  assert (M0 : h_mac h0 = m).
+  { unfold h0. destruct (hlookup k (hosts s)) as [h|]; [destruct (h_mac h =? m) eqn:EM; ipeq; auto|]; reflexivity. }
+  set (base := match hlookup k (hosts s) with Some h => if h_mac h =? m then h_names h else names0 | None => names0 end).
+  assert (N0 : h_names h0 = base).
+  { unfold h0, base. destruct (hlookup k (hosts s)) as [h|]; [destruct (h_mac h =? m)|]; reflexivity. }
+  assert (D0 : h_dirty h0 = match hlookup k (hosts s) with Some h => if h_mac h =? m then h_dirty h else true | None => true end).
+  { unfold h0. destruct (hlookup k (hosts s)) as [h|]; [destruct (h_mac h =? m)|]; reflexivity. }
+  set (chg := snd (merge (n_dhcp base) name)).
+  (* update_name on s0 *)
+  set (s1 := update_name KDhcp k name s0) in *.
+  set (h1 := if chg then set_dirty true (set_hnames (nset KDhcp name (h_names h0)) h0) else h0).
+  assert (L1 : forall x, hlookup x (hosts s1) = if ip_eqb k x then Some h1 else hlookup x (hosts s0)).
+  { intros x. unfold s1, update_name. rewrite L0. cbn [nget]. rewrite N0.
+    unfold h1, chg. unfold merge. destruct (negb (name =? 0) && negb (n_dhcp base =? name)); cbn [snd fst].
+    - cbn [hosts upd_mac set_macs upd_host set_hosts]. rewrite hlookup_hupd. destruct (ip_eqb k x) eqn:E; auto.
+      ipeq. subst x. rewrite L0. cbn [option_map]. rewrite N0. reflexivity.
+    - destruct (ip_eqb k x) eqn:E; auto. ipeq. subst x. exact L0. }
+  assert (I1 : InvR s1) by (apply update_name_InvR; exact I0).
+  set (s2 := upd_mac m (set_moffer k) s1) in *.
+  assert (I2 : InvR s2) by (apply upd_mac_InvR_same; [intros ?; split; reflexivity|auto|reflexivity|exact I1]).
+  assert (L2 : hlookup k (hosts s2) = Some h1) by (unfold s2; cbn [hosts upd_mac set_macs]; rewrite L1, ip_eqb_refl; reflexivity).
+  assert (O1 : h_online h1 = currentb (abs s) m k).
+  { rewrite <- CUR. unfold h1. destruct chg; reflexivity. }
+  assert (M1 : h_mac h1 = m) by (unfold h1; destruct chg; exact M0).
+  assert (E' : s' = if negb (host_online k s2) then online_transition k s2 else s2).
+  { destruct (negb (host_online k s2)); inversion R; reflexivity. }
+  assert (OFF : forall m', eoffer s2 m' = if m' =? m then k else if hadb s m' && negb (hadb s2 m') then IPnone else eoffer s m').
+  { intros m'. assert (LK1 : hlookup k (hosts s1) = Some h1) by (rewrite L1, ip_eqb_refl; reflexivity).
+    destruct (InvS_host _ _ _ (proj1 (proj1 I1)) LK1) as (_ & e1 & F1 & _). rewrite M1 in F1.
+    pose proof (eoffer_set_moffer m k s1 m') as X. fold s2 in X. rewrite X, F1.
+    destruct (m' =? m); [reflexivity|].
+    destruct (update_name_Same KDhcp k name s0) as [A1 B1]. fold s1 in A1, B1.
+    assert (H2 : hadb s2 m' = hadb s0 m') by (rewrite <- B1; apply hadb_ext; reflexivity).
+    rewrite H2, A1. apply (foc_offers _ _ _ _ _ _ (proj1 I) F m'). }
+  split; [exact I'|].
+  unfold host_online in E'. rewrite L2 in E'. destruct (h_online h1) eqn:OH; cbn [negb] in E'; subst s'.
+  - (* already online under m *)
+    split; [change (chan (update_name KDhcp k name s0) = chan s); rewrite update_name_chan; exact CC|].
+    split.
+    + exists h1. split; [exact L2|]. split; [exact OH|]. split; [exact M1|]. rewrite <- O1. cbn [negb]. rewrite orb_false_r.
+      unfold h1. fold chg. destruct chg; cbn [h_dirty h_names set_dirty set_hnames]; rewrite ?N0, ?D0, ?orb_true_r, ?orb_false_r; auto.
+    + split; [|split; [exact AB|exact OFF]].
+      intros k' N. right. unfold s2. cbn [hosts upd_mac set_macs]. rewrite L1, CH.
+      assert (E : ip_eqb k k' = false) by (apply ip_eqb_neq; congruence). rewrite E. reflexivity.
+  - (* offline or new: onlineTransition *)
+    destruct (InvS_host _ _ _ (proj1 (proj1 I2)) L2) as (_ & e2 & F2 & _).
+    destruct (online_transition_char k s2 h1 e2 (proj1 I2) L2 OH F2) as (LK & _ & CC2 & _).
+    split; [rewrite CC2; change (chan (update_name KDhcp k name s0) = chan s); rewrite update_name_chan; exact CC|].
+    split.
+    + eexists. split; [rewrite LK, ip_eqb_refl; reflexivity|]. split; [reflexivity|]. split; [exact M1|].
+      rewrite <- O1. cbn [negb h_dirty h_names set_dirty set_online]. rewrite orb_true_r. split; [reflexivity|].
+      unfold h1. fold chg. destruct chg; cbn [h_names set_dirty set_hnames]; rewrite ?N0; reflexivity.
+    + split; [|split; [exact AB|]].
+      * intros k' N. rewrite LK. assert (E : ip_eqb k k' = false) by (apply ip_eqb_neq; congruence). rewrite E.
+        assert (LS : hlookup k' (hosts s2) = hlookup k' (hosts s)).
+        { unfold s2. cbn [hosts upd_mac set_macs]. rewrite L1, CH, E. reflexivity. }
+        rewrite LS. destruct (is4 k && negb (ip_eqb k (m_ip4 e2)) && sup_cond k (m_hosts e2) k'); [left|right]; reflexivity.
+      * intros m'. destruct (online_transition_Same k s2) as [A B]. rewrite A, B. apply OFF.
+Qed.
+
 (* facts about the reference rule *)
 Lemma flipb_same a x : flipb a a x = false.
 Proof. unfold flipb. destruct (a x) as [e|]; auto. destruct (a_online e); reflexivity. Qed.
@@ -348,6 +462,8 @@ Inductive dunit : Set :=
 | DFrame (f : fsum) (now : Z)            (* Parse; Notify *)
 | DPurge (now : Z) (order : list ip)
 | DName (kd : nkind) (k : ip) (name : N) (* one of the five Update*Name methods on FindIP(k) *)
+| DUpdate (m : mac) (k : ip) (name : N) (now : Z)   (* DHCPv4Update *)
+| DOffer (m : mac) (k : ip) (name : N)              (* SetDHCPv4IPOffer *)
 | DCapture (m : mac)
 | DRelease (m : mac).
 
@@ -356,6 +472,8 @@ Definition to_u6 (u : dunit) : unit6 :=
   | DFrame f now => UFrame f now
   | DPurge now _ => UPurge now
   | DName kd k name => UName kd k name
+  | DUpdate m k name now => UUpdate m k name now
+  | DOffer m k _ => UOffer m k
   | _ => UOther
   end.
 
@@ -364,6 +482,8 @@ Definition dstep (c : cfg) (s : state) (u : dunit) : state :=
   | DFrame f now => frame_unit c s f now
   | DPurge now order => fst (step c s (Purge now order))
   | DName kd k name => fst (step c s (NameUpdate kd k name))
+  | DUpdate m k name now => fst (step c s (DHCPv4Update m k name now))
+  | DOffer m k name => fst (step c s (SetOffer m k name))
   | DCapture m => fst (step c s (Capture m))
   | DRelease m => fst (step c s (Release m))
   end.
@@ -376,11 +496,12 @@ Record J (s : state) (r : rstate) : Prop := {
   J_inv : InvR s;
   J_abs : forall k, abs s k = r_map r k;
   J_chan : chan s = [];
-  J_no : NoOffer s;
+  (* the offer the DHCP path would read is the one the reference remembers *)
+  J_off : forall m, eoffer s m = r_offer r m;
+  J_dom : forall k, r_map r k <> None -> In k (r_dom r);
   (* a notification is pending in the code exactly for the addresses the reference owes one *)
   J_dirty : forall k h, hlookup k (hosts s) = Some h -> h_dirty h = existsb (ip_eqb k) (r_owed r);
-  J_names : forall k h, hlookup k (hosts s) = Some h -> h_names h = r_names r k;
-  J_roff : forall m, r_offer r m = IPnone }.
+  J_names : forall k h, hlookup k (hosts s) = Some h -> h_names h = r_names r k }.
 
 Definition unit_ok (c : cfg) (s : state) (u : dunit) : Prop :=
   match u with
@@ -390,17 +511,13 @@ Definition unit_ok (c : cfg) (s : state) (u : dunit) : Prop :=
   | _ => True
   end.
 
-(* the order clause: everything announced about other addresses (offline) precedes the
-   notification about the frame's own address *)
+(* the order clause: everything announced about other addresses (offline) precedes the one
+   notification about the frame's own (or, on the DHCP path, the offered) address *)
 Definition order_ok (c : cfg) (u : dunit) (em : list notif) : Prop :=
   match u with
   | DFrame f now =>
-      match ref_event c f with
-      | Some (m, k) => exists offs last, em = offs ++ last /\
-                         Forall (fun n => nt_online n = false /\ nt_ip n <> k) offs /\
-                         (last = [] \/ exists n, last = [n] /\ nt_ip n = k)
-      | None => em = []
-      end
+      exists offs last, em = offs ++ last /\ Forall (fun n => nt_online n = false) offs /\
+        (last = [] \/ exists n, last = [n] /\ Forall (fun x => nt_ip x <> nt_ip n) offs)
   | _ => Forall (fun n => nt_online n = false) em
   end.
 
@@ -409,9 +526,9 @@ Proof.
   intros EH EM EC [A B C D E F G]. constructor; auto.
   - destruct A as [A1 A2]. split; [eapply InvP_ext; eauto | eapply Inv4_ext; eauto].
   - intros k. unfold abs. rewrite EH. apply B.
-  - eapply NoOffer_ext; eauto.
-  - rewrite EH. exact E.
+  - intros m. rewrite (eoffer_ext s s' EM). apply D.
   - rewrite EH. exact F.
+  - rewrite EH. exact G.
 Qed.
 
 Lemma frame_unit_notify c s f now fr :
@@ -436,16 +553,7 @@ Proof.
     destruct (InvS_listed _ _ _ _ (proj1 I) F' Iv) as (h' & L' & M' & _). rewrite L in L'. inversion L'; subst. congruence.
 Qed.
 
-(* ---- frame units ---- *)
-Lemma frame_unit_none c s r f now :
-  J s r -> fsum_wf f -> host_event c f = None ->
-  hosts (frame_unit c s f now) = hosts s /\ macs (frame_unit c s f now) = macs s /\ chan (frame_unit c s f now) = chan s.
-Proof.
-  intros Js W HE. unfold frame_unit. cbn [step]. unfold rx. rewrite HE. cbn [fst lastf set_lastf].
-  rewrite notify_nohost; [repeat split; reflexivity| |reflexivity].
-  eapply NoOffer_ext; [|apply (J_no s r Js)]. reflexivity.
-Qed.
-
+(* ---- frame units whose creation rule fires ---- *)
 Definition owed_after (r : rstate) (m : mac) (k : ip) (now : Z) : list ip :=
   filter (fun x => negb (ip_eqb x k) && negb (sibling_due (r_map r) (sight m k now (r_map r)) (r_owed r) m k x)) (r_owed r).
 
@@ -663,27 +771,117 @@ Proof.
     destruct (aged c now h0); inversion L'; subst h'; apply (J_names s r Js k' h0 L0).
 Qed.
 
+
+(* ---- frame units without host event: the DHCP path of Notify ---- *)
+Definition owed_after_dhcp (r : rstate) (y : ip) : list ip :=
+  filter (fun x => negb (ip_eqb x y) && negb (dhcp_sib (r_map r) (r_owed r) y x)) (r_owed r).
+
+Theorem frame_none_once c s r f now :
+  J s r -> unit_ok c s (DFrame f now) -> host_event c f = None ->
+  let s2 := frame_unit c s f now in
+  Same s s2 /\ (forall x, abs s2 x = abs s x) /\
+  match dhcp_target r f with
+  | None => hosts s2 = hosts s /\ chan s2 = []
+  | Some y =>
+      (exists offs n, chan s2 = offs ++ [n] /\ Forall (fun z => nt_online z = false) offs /\ NoDup (map nt_ip offs) /\
+          (forall x, x <> y -> existsb (fun v => ip_eqb v x) (map nt_ip offs) = dhcp_sib (r_map r) (r_owed r) y x) /\
+          existsb (fun v => ip_eqb v y) (map nt_ip offs) = false /\
+          nt_ip n = y /\ nt_online n = match r_map r y with Some e => a_online e | None => false end) /\
+      (forall k' h', hlookup k' (hosts s2) = Some h' -> h_dirty h' = existsb (ip_eqb k') (owed_after_dhcp r y)) /\
+      (forall k' h', hlookup k' (hosts s2) = Some h' -> h_names h' = r_names r k')
+  end.
+Proof.
+  intros Js [W CAP] HE. cbn zeta.
+  set (fr := {| fr_host := None; fr_online := false; fr_dhcp4 := f_dhcp4 f; fr_src := Tables.f_src f |}).
+  assert (S1 : fst (step c s (Rx f now)) = set_lastf (Some fr) s) by (cbn [step]; unfold rx; rewrite HE; reflexivity).
+  assert (FU : frame_unit c s f now = notify fr (set_lastf (Some fr) s)).
+  { rewrite (frame_unit_notify c s f now fr); rewrite S1; reflexivity. }
+  rewrite FU. set (s1 := set_lastf (Some fr) s).
+  assert (SM : Same s (notify fr s1)).
+  { eapply Same_trans; [apply (Same_ext s s1); reflexivity|apply notify_Same]. }
+  split; [exact SM|]. split; [intros x; rewrite abs_notify; reflexivity|].
+  unfold notify, dhcp_target. cbn [fr_host fr_dhcp4 fr_src fr].
+  destruct (f_dhcp4 f); cbn [negb]; [|split; [reflexivity|apply (J_chan s r Js)]].
+  change (match find_mac (Tables.f_src f) (macs s1) with Some e => m_offer e | None => IPnone end) with (eoffer s (Tables.f_src f)).
+  rewrite (J_off s r Js). set (y := r_offer r (Tables.f_src f)).
+  destruct (is_valid y) eqn:VY; cbn [negb andb]; [|split; [reflexivity|apply (J_chan s r Js)]].
+  change (hosts s1) with (hosts s). rewrite <- (J_abs s r Js y). unfold abs at 1.
+  destruct (hlookup y (hosts s)) as [h|] eqn:L; cbn [option_map]; [|split; [reflexivity|apply (J_chan s r Js)]].
+  rewrite <- (J_dirty s r Js y h L). cbn [andb].
+  destruct (h_dirty h) eqn:DK.
+  2:{ unfold notify_host. change (hosts s1) with (hosts s). rewrite L, DK. cbn [negb]. split; [reflexivity|apply (J_chan s r Js)]. }
+  pose proof (proj1 (J_inv s r Js)) as IP.
+  assert (IP1 : InvP s1) by (revert IP; apply InvP_ext; reflexivity).
+  destruct (InvS_host _ _ _ (proj1 IP) L) as (Hipy & ey & Fy & _).
+  assert (CAPy : (List.length (chan s1) + List.length (mac_hosts (h_mac h) s1) < chan_cap)%nat).
+  { change (chan s1) with (chan s). rewrite (J_chan s r Js). simpl. specialize (CAP (h_mac h)). rewrite S1 in CAP.
+    change (mac_hosts (h_mac h) (set_lastf (Some fr) s)) with (mac_hosts (h_mac h) s1) in CAP. unfold chan_cap. lia. }
+  destruct (notify_host_strong y true s1 h IP1 L DK CAPy) as (offs & n & CH & MI & FO & NI & NO & ND & LKF).
+  change (chan s1) with (chan s) in CH. rewrite (J_chan s r Js) in CH. cbn [app] in CH.
+  set (l := notify_list y true s1 h) in *.
+  assert (MEM : forall x, x <> y -> existsb (fun v => ip_eqb v x) l = dhcp_sib (r_map r) (r_owed r) y x).
+  { intros x N. rewrite existsb_sym. unfold dhcp_sib, l, notify_list. rewrite Hipy. cbn [andb].
+    rewrite <- !(J_abs s r Js). unfold abs. rewrite L. cbn [option_map aof a_mac].
+    destruct (is4 y); [|reflexivity]. cbn [andb].
+    rewrite existsb_filter_ip. assert (E : ip_eqb x y = false) by (apply ip_eqb_neq; exact N). rewrite E. cbn [negb andb].
+    change (hosts s1) with (hosts s). change (mac_hosts (h_mac h) s1) with (mac_hosts (h_mac h) s).
+    destruct (hlookup x (hosts s)) as [hx|] eqn:LX; cbn [option_map]; [|reflexivity].
+    rewrite (mem_mac_hosts s (h_mac h) x hx IP LX). rewrite (J_dirty s r Js x hx LX). cbn [aof a_mac a_online].
+    destruct (h_mac hx =? h_mac h), (h_online hx), (existsb (ip_eqb x) (r_owed r)); reflexivity. }
+  assert (NKL : existsb (fun v => ip_eqb v y) l = false).
+  { destruct (existsb (fun v => ip_eqb v y) l) eqn:EX; auto. exfalso.
+    apply existsb_exists in EX. destruct EX as (v & Iv & Ev). ipeq. subst v.
+    unfold l, notify_list in Iv. destruct (true && is4 (h_ip h)); [|destruct Iv]. apply filter_In in Iv.
+    destruct Iv as [_ Pv]. rewrite ip_eqb_refl in Pv. discriminate. }
+  assert (OWX : forall x, existsb (ip_eqb x) (owed_after_dhcp r y) =
+                  negb (ip_eqb x y) && negb (dhcp_sib (r_map r) (r_owed r) y x) && existsb (ip_eqb x) (r_owed r)).
+  { intros x. unfold owed_after_dhcp. apply existsb_filter_ip. }
+  split; [|split].
+  - exists offs, n. rewrite CH, MI. repeat split; auto.
+    rewrite NO, <- (J_abs s r Js y). unfold abs. rewrite L. reflexivity.
+  - intros k' h' L'. rewrite LKF in L'. rewrite OWX. destruct (ip_eqb y k') eqn:E.
+    + ipeq. subst k'. inversion L'; subst h'. rewrite ip_eqb_refl. reflexivity.
+    + ipeq. assert (N : k' <> y) by congruence. assert (E2 : ip_eqb k' y = false) by (apply ip_eqb_neq; exact N).
+      rewrite E2. cbn [negb andb]. rewrite MEM in L' by auto. change (hosts s1) with (hosts s) in L'.
+      destruct (dhcp_sib (r_map r) (r_owed r) y k').
+      * destruct (hlookup k' (hosts s)) as [h1|]; [|discriminate]. simpl in L'. inversion L'; subst. reflexivity.
+      * simpl. apply (J_dirty s r Js k' h' L').
+  - intros k' h' L'. rewrite LKF in L'. destruct (ip_eqb y k') eqn:E.
+    + ipeq. subst k'. inversion L'; subst h'. apply (J_names s r Js y h L).
+    + change (hosts s1) with (hosts s) in L'. destruct (existsb (fun v => ip_eqb v k') l).
+      * destruct (hlookup k' (hosts s)) as [h1|] eqn:L1; [|discriminate]. simpl in L'. inversion L'; subst.
+        apply (J_names s r Js k' h1 L1).
+      * apply (J_names s r Js k' h' L').
+Qed.
+
 (* ------------------------------------------------------------------ *)
 (* every unit: per-address exactly-once, order, invariant *)
-
-Lemma NoOffer_notify fr s : NoOffer s -> NoOffer (notify fr s).
-Proof.
-  intros H. unfold notify. destruct (fr_host fr); [apply NoOffer_notify_host; exact H|].
-  destruct (negb (fr_dhcp4 fr)); auto. destruct (negb (is_valid _)); auto.
-  destruct (hlookup _ (hosts s)); auto. apply NoOffer_notify_host. exact H.
-Qed.
 
 Lemma about_single x n : about x [pair_of n] = if ip_eqb (nt_ip n) x then [pair_of n] else [].
 Proof. reflexivity. Qed.
 
 Lemma Forall_offline_ip (offs : list notif) k :
-  Forall (fun n => nt_online n = false) offs -> existsb (fun v => ip_eqb v k) (map nt_ip offs) = false ->
-  Forall (fun n => nt_online n = false /\ nt_ip n <> k) offs.
+  existsb (fun v => ip_eqb v k) (map nt_ip offs) = false -> Forall (fun n => nt_ip n <> k) offs.
 Proof.
-  intros F E. rewrite Forall_forall in *. intros n In_. split; auto. intros X.
+  intros E. rewrite Forall_forall. intros n In_ X.
   assert (T : existsb (fun v => ip_eqb v k) (map nt_ip offs) = true).
   { apply existsb_exists. exists (nt_ip n). split; [apply in_map; exact In_|]. rewrite X. apply ip_eqb_refl. }
   congruence.
+Qed.
+
+(* the reference's offers after a change of the map, from the model's ownership facts *)
+Lemma J_offers_after s s' r a' dom' :
+  J s r -> InvP s' -> (forall x, abs s' x = a' x) ->
+  (forall x, In x (r_dom r) -> In x dom') -> (forall x, a' x <> None -> In x dom') ->
+  (forall m, eoffer s' m = if hadb s m && negb (hadb s' m) then IPnone else eoffer s m) ->
+  forall m, eoffer s' m = offers_after (r_map r) a' dom' (r_offer r) m.
+Proof.
+  intros Js I' AB' INC SUP' E m.
+  pose proof (proj1 (J_inv s r Js)) as [(_ & NK & _) _]. pose proof I' as [(_ & NK' & _) _].
+  apply (offers_link s s' (r_map r) a' dom' (r_offer r)); auto.
+  - apply (J_abs s r Js).
+  - intros x H. apply INC. apply (J_dom s r Js x H).
+  - apply (J_off s r Js).
 Qed.
 
 (* a name update *)
@@ -693,43 +891,146 @@ Lemma name_unit c s r kd k name :
   chan s2 = chan s /\ J (set_chan [] s2) (rnext c r (UName kd k name)).
 Proof.
   intros Js. cbn zeta. cbn [step fst]. pose proof Js as [A B C0 D E F G].
-  assert (CH : chan (update_name kd k name s) = chan s).
-  { unfold update_name. destruct (hlookup k (hosts s)); auto. destruct (merge _ _) as [nm [|]]; reflexivity. }
-  split; [exact CH|].
+  split; [apply update_name_chan|].
   assert (NC : name_changes r kd k name =
                match hlookup k (hosts s) with Some h => snd (merge (nget kd (h_names h)) name) | None => false end).
   { unfold name_changes. rewrite <- B. unfold abs. destruct (hlookup k (hosts s)) as [h|] eqn:L; simpl; auto.
-    rewrite (F k h L). reflexivity. }
+    rewrite (G k h L). reflexivity. }
   cbn [rnext]. rewrite NC.
-  assert (COMMON : InvR (set_chan [] (update_name kd k name s)) /\ NoOffer (set_chan [] (update_name kd k name s)) /\
+  assert (COMMON : InvR (set_chan [] (update_name kd k name s)) /\
+                   (forall m, eoffer (set_chan [] (update_name kd k name s)) m = eoffer s m) /\
                    forall x, abs (set_chan [] (update_name kd k name s)) x = abs s x).
   { split; [apply (update_name_InvR kd k name s A)|]. split.
-    - unfold update_name. destruct (hlookup k (hosts s)) as [h|]; auto. destruct (merge _ _) as [nm [|]]; auto.
-      apply NoOffer_upd_mac; [reflexivity|]. apply NoOffer_upd_host. exact D.
+    - intros m. rewrite (eoffer_ext (update_name kd k name s) (set_chan [] (update_name kd k name s)) eq_refl).
+      apply (update_name_Same kd k name s).
     - intros x. apply (abs_update_name kd k name s x). }
-  destruct COMMON as (IR & NO & AB).
+  destruct COMMON as (IR & EO & AB).
   unfold update_name in *. destruct (hlookup k (hosts s)) as [h|] eqn:L.
   - unfold merge in *. destruct (negb (name =? 0) && negb (nget kd (h_names h) =? name)) eqn:MOD; cbn [snd fst] in *.
     + constructor; auto.
       * intros x. rewrite AB. apply B.
+      * intros m. rewrite EO. apply D.
       * intros x hx Lx. cbn [hosts set_chan upd_mac set_macs upd_host set_hosts] in Lx. rewrite hlookup_hupd in Lx.
         cbn [r_owed existsb]. rewrite (ip_eqb_sym x k). destruct (ip_eqb k x) eqn:EX.
         -- ipeq. subst x. rewrite L in Lx. simpl in Lx. inversion Lx; subst. reflexivity.
-        -- rewrite (E x hx Lx). reflexivity.
+        -- rewrite (F x hx Lx). reflexivity.
       * intros x hx Lx. cbn [hosts set_chan upd_mac set_macs upd_host set_hosts] in Lx. rewrite hlookup_hupd in Lx.
         cbn [r_names]. rewrite (ip_eqb_sym x k). destruct (ip_eqb k x) eqn:EX.
         -- ipeq. subst x. rewrite L in Lx. simpl in Lx. inversion Lx; subst. cbn [h_names set_dirty set_hnames].
-           rewrite (F k h L). reflexivity.
-        -- apply (F x hx Lx).
+           rewrite (G k h L). reflexivity.
+        -- apply (G x hx Lx).
     + apply (J_hosts_macs s); auto.
   - apply (J_hosts_macs s); auto.
 Qed.
 
-Lemma offers_after_none a a' dom off m : (forall m', off m' = IPnone) -> offers_after a a' dom off m = IPnone.
-Proof. intros H. unfold offers_after. destruct (_ && _); auto. Qed.
+(* SetDHCPv4IPOffer *)
+Lemma offer_unit c s r m k name :
+  J s r ->
+  let s2 := fst (step c s (SetOffer m k name)) in
+  chan s2 = chan s /\ J (set_chan [] s2) (rnext c r (UOffer m k)).
+Proof.
+  intros Js. cbn zeta. cbn [step fst]. pose proof Js as [A B C0 D E F G].
+  assert (HS : hosts (set_offer m k name s) = hosts s) by (unfold set_offer; cbn [hosts upd_mac set_macs]; apply mfoc_hosts).
+  split; [unfold set_offer; cbn [chan upd_mac set_macs]; apply mfoc_chan|].
+  cbn [rnext]. constructor; cbn [r_map r_owed r_names r_offer r_dom]; auto.
+  - apply (set_offer_InvR m k name s A).
+  - intros x. unfold abs. cbn [hosts set_chan]. rewrite HS. apply B.
+  - intros m'. rewrite (eoffer_ext (set_offer m k name s) (set_chan [] (set_offer m k name s)) eq_refl).
+    unfold set_offer, set_offer_of. rewrite eoffer_upd_mac_gen by reflexivity.
+    destruct (m' =? m) eqn:EM.
+    + pose proof (mfoc_In m s) as IM. destruct (find_mac m (macs (mac_find_or_create m s))) as [e|] eqn:FM; [reflexivity|].
+      apply find_mac_None in FM. contradiction.
+    + rewrite (proj1 (mfoc_Same m s)). apply D.
+  - cbn [hosts set_chan]. rewrite HS. exact F.
+  - cbn [hosts set_chan]. rewrite HS. exact G.
+Qed.
 
-Lemma dhcp_target_none r f : (forall m, r_offer r m = IPnone) -> dhcp_target r f = None.
-Proof. intros H. unfold dhcp_target. rewrite H. destruct (f_dhcp4 f); reflexivity. Qed.
+(* DHCPv4Update *)
+Lemma update_unit c s r m k name now :
+  J s r ->
+  let s2 := fst (step c s (DHCPv4Update m k name now)) in
+  chan s2 = chan s /\ J (set_chan [] s2) (rnext c r (UUpdate m k name now)).
+Proof.
+  intros Js. cbn zeta. pose proof Js as [A B C0 D E F G].
+  destruct (is_valid k && negb (is_unspecified k)) eqn:V.
+  2:{ assert (NOP : fst (step c s (DHCPv4Update m k name now)) = s).
+      { cbn [step]. unfold dhcp4_update.
+        assert (V' : negb (is_valid k) || is_unspecified k = true) by (destruct (is_valid k), (is_unspecified k); simpl in *; congruence).
+        rewrite V'. reflexivity. }
+      rewrite NOP. split; [reflexivity|]. cbn [rnext]. rewrite V. apply (J_hosts_macs s); auto. }
+  destruct (update_step_facts c s m k name now A V) as (I' & CH & (hk & Lk & Ok & Mk & Dk & Nk) & OTH & AB & OFF).
+  set (s' := fst (step c s (DHCPv4Update m k name now))) in *.
+  split; [exact CH|]. cbn [rnext]. rewrite V.
+  (* the model's quantities in the reference's terms *)
+  assert (CUR : currentb (abs s) m k = currentb (r_map r) m k) by (unfold currentb; rewrite B; reflexivity).
+  assert (CRE : created (r_map r) m k = match hlookup k (hosts s) with Some h => negb (h_mac h =? m) | None => true end).
+  { unfold created. rewrite <- B. unfold abs. destruct (hlookup k (hosts s)); reflexivity. }
+  assert (BASE : upd_base r m k = match hlookup k (hosts s) with Some h => if h_mac h =? m then h_names h else names0 | None => names0 end).
+  { unfold upd_base. rewrite CRE. destruct (hlookup k (hosts s)) as [h|] eqn:L; [|reflexivity].
+    destruct (h_mac h =? m); cbn [negb]; [symmetry; apply (G k h L)|reflexivity]. }
+  assert (CHG : upd_changed r m k name = snd (merge (n_dhcp (match hlookup k (hosts s) with Some h => if h_mac h =? m then h_names h else names0 | None => names0 end)) name)).
+  { unfold upd_changed. rewrite BASE. reflexivity. }
+  assert (AB1 : forall x, abs s' x = sight m k now (r_map r) x) by (intros x; rewrite AB; apply sight_ext; exact B).
+  assert (FLE : forall x, flipb (abs s) (abs s') x = flipb (r_map r) (sight m k now (r_map r)) x).
+  { intros x. apply flipb_ext; [apply B|apply AB1]. }
+  assert (REC : forall x, x <> k -> hlookup x (hosts s') =
+                 if flipb (abs s) (abs s') x then option_map supersede (hlookup x (hosts s)) else hlookup x (hosts s)).
+  { intros x N. unfold flipb, abs. destruct (OTH x N) as [E0|E0]; rewrite E0.
+    - destruct (hlookup x (hosts s)) as [hx|]; simpl; auto.
+      rewrite supersede_offline. destruct (h_online hx) eqn:OX; simpl; auto.
+      unfold supersede. rewrite OX. reflexivity.
+    - destruct (hlookup x (hosts s)) as [hx|]; simpl; auto. destruct (h_online hx); reflexivity. }
+  set (dom' := add_ip k (r_dom r)).
+  assert (SUP' : forall x, sight m k now (r_map r) x <> None -> In x dom') by (intros x; apply sight_support; exact E).
+  constructor; cbn [r_map r_owed r_names r_offer r_dom]; auto.
+  - (* offers *)
+    intros m'. rewrite (eoffer_ext s' (set_chan [] s') eq_refl). rewrite OFF. unfold set_offer_of.
+    destruct (m' =? m); [reflexivity|].
+    assert (X : forall m0, (if hadb s m0 && negb (hadb s' m0) then IPnone else eoffer s m0) =
+                          offers_after (r_map r) (sight m k now (r_map r)) dom' (r_offer r) m0).
+    { intros m0. pose proof (proj1 A) as [(_ & NK & _) _]. pose proof (proj1 I') as [(_ & NK' & _) _].
+      unfold offers_after.
+      rewrite (has_addr_hadb s (r_map r) dom' m0 NK B) by (intros x H; apply add_ip_incl; apply (E x H)).
+      rewrite (has_addr_hadb s' (sight m k now (r_map r)) dom' m0 NK' AB1 SUP'). rewrite D. reflexivity. }
+    apply X.
+  - (* pending notifications *)
+    intros x hx Lx. cbn [hosts set_chan] in Lx. rewrite !existsb_app. rewrite existsb_filter_ip.
+    destruct (ip_eqb x k) eqn:EX.
+    + ipeq. subst x. rewrite Lk in Lx. inversion Lx; subst hx. rewrite Dk. cbn [negb andb orb].
+      rewrite <- CHG, CUR.
+      assert (X : existsb (ip_eqb k) (if negb (currentb (r_map r) m k) || upd_changed r m k name then [k] else []) =
+                  negb (currentb (r_map r) m k) || upd_changed r m k name).
+      { destruct (negb _ || _); cbn [existsb]; rewrite ?ip_eqb_refl; reflexivity. }
+      rewrite X.
+      destruct (hlookup k (hosts s)) as [h|] eqn:L; [destruct (h_mac h =? m) eqn:EM|].
+      * rewrite (F k h L).
+        destruct (existsb (ip_eqb k) (r_owed r)), (upd_changed r m k name), (currentb (r_map r) m k); reflexivity.
+      * assert (NC : currentb (r_map r) m k = false).
+        { unfold currentb. rewrite <- B. unfold abs. rewrite L. simpl. rewrite EM. reflexivity. }
+        rewrite NC. cbn [negb orb]. rewrite ?orb_true_r. reflexivity.
+      * assert (NC : currentb (r_map r) m k = false) by (unfold currentb; rewrite <- B; unfold abs; rewrite L; reflexivity).
+        rewrite NC. cbn [negb orb]. rewrite ?orb_true_r. reflexivity.
+    + ipeq. assert (N : x <> k) by exact EX. rewrite REC in Lx by auto.
+      assert (K0 : existsb (ip_eqb x) (if negb (currentb (r_map r) m k) || upd_changed r m k name then [k] else []) = false).
+      { destruct (negb _ || _); cbn [existsb]; rewrite ?orb_false_r; [apply ip_eqb_neq; exact N|reflexivity]. }
+      rewrite K0. cbn [negb andb orb]. rewrite <- FLE.
+      destruct (flipb (abs s) (abs s') x) eqn:FL.
+      * destruct (hlookup x (hosts s)) as [h0|] eqn:L0; [|discriminate]. simpl in Lx. inversion Lx; subst hx.
+        assert (INX : existsb (ip_eqb x) dom' = true).
+        { apply existsb_exists. exists x. split; [|apply ip_eqb_refl]. apply add_ip_incl. apply E. rewrite <- B. unfold abs. rewrite L0. discriminate. }
+        rewrite INX. cbn [andb orb].
+        unfold flipb, abs in FL. rewrite L0 in FL. cbn [option_map] in FL.
+        destruct (option_map aof (hlookup x (hosts s'))); [|discriminate].
+        apply andb_prop in FL. destruct FL as [OX _]. cbn [aof a_online] in OX. unfold supersede. rewrite OX. reflexivity.
+      * cbn [andb orb]. apply (F x hx Lx).
+  - (* names *)
+    intros x hx Lx. cbn [hosts set_chan] in Lx. destruct (ip_eqb x k) eqn:EX.
+    + ipeq. subst x. rewrite Lk in Lx. inversion Lx; subst hx. rewrite Nk, CHG, BASE. reflexivity.
+    + ipeq. rewrite REC in Lx by auto. destruct (flipb (abs s) (abs s') x).
+      * destruct (hlookup x (hosts s)) as [h0|] eqn:L0; [|discriminate]. simpl in Lx. inversion Lx; subst.
+        unfold supersede. destruct (h_online h0); apply (G x h0 L0).
+      * apply (G x hx Lx).
+Qed.
 
 Theorem unit_once c s r u :
   J s r -> unit_ok c s u ->
@@ -737,7 +1038,7 @@ Theorem unit_once c s r u :
   order_ok c u (snd (exec c s u)) /\
   J (fst (exec c s u)) (rnext c r (to_u6 u)).
 Proof.
-  intros Js OK. destruct u as [f now|now order|kd k name|m|m]; unfold exec; cbn [fst snd dstep to_u6].
+  intros Js OK. destruct u as [f now|now order|kd k name|m k name now|m k name|m|m]; unfold exec; cbn [fst snd dstep to_u6].
   - (* frame *)
     destruct OK as [W CAP]. pose proof (event_agree c f W) as EA.
     assert (IR2 : InvR (frame_unit c s f now)).
@@ -745,6 +1046,8 @@ Proof.
     destruct (host_event c f) as [[m k]|] eqn:HE.
     + destruct (frame_unit_once c s r f now m k Js (conj W CAP) HE) as ((offs & last & CH & FO & ND & MEM & NK & LAST) & JD & JN).
       destruct (rx_step_facts c s f now m k (J_inv s r Js) HE) as (I1 & C1 & NO1 & LF & _ & _ & AB).
+      assert (AB2 : forall x, abs (frame_unit c s f now) x = sight m k now (r_map r) x).
+      { intros x. rewrite (frame_unit_notify _ _ _ _ _ LF). rewrite abs_notify, AB. apply sight_ext. apply (J_abs s r Js). }
       split; [|split].
       * intros x. cbn [due]. rewrite <- EA. rewrite CH, map_app, about_app.
         rewrite (about_offline_nodup x offs FO ND).
@@ -758,35 +1061,80 @@ Proof.
            { destruct LAST as [(_ & n & -> & NI & _)|(_ & ->)]; [|reflexivity].
              cbn [map]. rewrite about_single, NI. destruct (ip_eqb k x) eqn:E2; auto. ipeq. congruence. }
            rewrite LZ, app_nil_r. reflexivity.
-      * unfold order_ok. rewrite <- EA. exists offs, last. split; auto. split; [apply Forall_offline_ip; auto|].
-        destruct LAST as [(_ & n & -> & NI & _)|(_ & ->)]; [right; exists n; auto|left; reflexivity].
-      * cbn [rnext]. rewrite <- EA. constructor; auto.
-        -- intros x. change (abs (frame_unit c s f now) x = sight m k now (r_map r) x).
-           rewrite (frame_unit_notify _ _ _ _ _ LF).
-           rewrite abs_notify, AB. apply sight_ext. apply (J_abs s r Js).
-        -- unfold NoOffer. cbn [macs set_chan]. rewrite (frame_unit_notify _ _ _ _ _ LF).
-           apply NoOffer_notify. apply NO1. apply (J_no s r Js).
-        -- intros m0. cbn [r_offer]. apply offers_after_none. apply (J_roff s r Js).
-    + destruct (frame_unit_none c s r f now Js W HE) as (EH & EM & EC).
-      split; [|split].
-      * intros x. cbn [due]. rewrite <- EA, EC, (J_chan s r Js), (dhcp_target_none r f (J_roff s r Js)). reflexivity.
-      * unfold order_ok. rewrite <- EA, EC. apply (J_chan s r Js).
-      * cbn [rnext]. rewrite <- EA, (dhcp_target_none r f (J_roff s r Js)). apply (J_hosts_macs s); auto.
+      * unfold order_ok. exists offs, last. split; auto. split; auto.
+        destruct LAST as [(_ & n & -> & NI & _)|(_ & ->)]; [right; exists n; split; auto; rewrite NI; apply Forall_offline_ip; exact NK|left; reflexivity].
+      * cbn [rnext]. rewrite <- EA. constructor; cbn [r_map r_owed r_names r_offer r_dom]; auto.
+        -- (* offers *)
+           intros m0. rewrite (eoffer_ext (frame_unit c s f now) (set_chan [] (frame_unit c s f now)) eq_refl).
+           apply (J_offers_after s (frame_unit c s f now) r (sight m k now (r_map r)) (add_ip k (r_dom r)) Js (proj1 IR2) AB2).
+           ++ intros x. apply add_ip_incl.
+           ++ intros x. apply sight_support. apply (J_dom s r Js).
+           ++ intros m1. rewrite (frame_unit_notify _ _ _ _ _ LF).
+              destruct (notify_Same {| fr_host := Some k; fr_online := negb (currentb (abs s) m k); fr_dhcp4 := f_dhcp4 f; fr_src := Tables.f_src f |}
+                          (fst (step c s (Rx f now)))) as [SA SB].
+              rewrite SA, SB. apply (rx_offers c s f now m k (proj1 (J_inv s r Js)) HE).
+        -- intros x. apply sight_support. apply (J_dom s r Js).
+    + destruct (frame_none_once c s r f now Js (conj W CAP) HE) as (SM & AB0 & REST).
+      cbn [due rnext]. rewrite <- EA.
+      assert (COMMON : forall r', r_map r' = r_map r -> r_offer r' = r_offer r -> r_dom r' = r_dom r ->
+                (forall k' h', hlookup k' (hosts (frame_unit c s f now)) = Some h' -> h_dirty h' = existsb (ip_eqb k') (r_owed r')) ->
+                (forall k' h', hlookup k' (hosts (frame_unit c s f now)) = Some h' -> h_names h' = r_names r' k') ->
+                J (set_chan [] (frame_unit c s f now)) r').
+      { intros r' E1 E2 E3 HD HN. constructor; auto.
+        - intros x. change (abs (frame_unit c s f now) x = r_map r' x). rewrite AB0, E1. apply (J_abs s r Js).
+        - intros m0. rewrite (eoffer_ext (frame_unit c s f now) (set_chan [] (frame_unit c s f now)) eq_refl).
+          rewrite (proj1 SM), E2. apply (J_off s r Js).
+        - intros x. rewrite E1, E3. apply (J_dom s r Js). }
+      destruct (dhcp_target r f) as [y|].
+      * destruct REST as ((offs & n & CH & FO & ND & MEM & NK & NI & NO) & JD & JN).
+        split; [|split].
+        -- intros x. rewrite CH, map_app, about_app. rewrite (about_offline_nodup x offs FO ND).
+           cbn [map]. rewrite about_single, NI. rewrite (ip_eqb_sym y x).
+           destruct (ip_eqb x y) eqn:E.
+           ++ ipeq. subst x. rewrite NK. cbn [app]. unfold pair_of. rewrite NI, NO. reflexivity.
+           ++ ipeq. rewrite (MEM x E), app_nil_r. reflexivity.
+        -- unfold order_ok. exists offs, [n]. split; auto. split; auto. right. exists n. split; auto.
+           rewrite NI. apply Forall_offline_ip. exact NK.
+        -- apply COMMON; auto.
+      * destruct REST as (HS & CH). split; [|split].
+        -- intros x. rewrite CH. reflexivity.
+        -- unfold order_ok. exists [], []. rewrite CH. repeat split; auto.
+        -- apply COMMON; auto; rewrite HS; [apply (J_dirty s r Js)|apply (J_names s r Js)].
   - (* purge *)
     destruct (purge_unit_once c s r now order Js OK) as ((FO & ND & MEM) & JD & JN).
     destruct OK as (NDo & CO & CAP).
+    assert (AB2 : forall x, abs (fst (step c s (Purge now order))) x = age c now (r_map r) x).
+    { intros x. cbn [step fst]. rewrite purge_refine; [|apply (J_inv s r Js)|exact CO]. unfold age. rewrite (J_abs s r Js). reflexivity. }
     split; [|split].
     + intros x. cbn [due]. rewrite (about_offline_nodup x _ FO ND), MEM. reflexivity.
     + exact FO.
-    + cbn [rnext]. constructor; auto.
+    + cbn [rnext]. constructor; cbn [r_map r_owed r_names r_offer r_dom]; auto.
       * apply (step_InvR c s (Purge now order)). apply (J_inv s r Js).
-      * intros x. change (abs (fst (step c s (Purge now order))) x = age c now (r_map r) x).
-        cbn [step fst]. rewrite purge_refine; [|apply (J_inv s r Js)|exact CO].
-        unfold age. rewrite (J_abs s r Js). reflexivity.
-      * apply NoOffer_purge. apply (J_no s r Js).
-      * intros m0. cbn [r_offer]. apply offers_after_none. apply (J_roff s r Js).
+      * intros m0. rewrite (eoffer_ext (fst (step c s (Purge now order))) (set_chan [] (fst (step c s (Purge now order)))) eq_refl).
+        apply (J_offers_after s (fst (step c s (Purge now order))) r (age c now (r_map r)) (r_dom r) Js
+                 (proj1 (step_InvR c s (Purge now order) (J_inv s r Js))) AB2); auto.
+        -- intros x H. apply (J_dom s r Js). apply (age_support c now (r_map r) x H).
+        -- intros m1. cbn [step fst]. unfold purge.
+           match goal with |- context [fold_left _ ?del (fold_left ?g ?off s)] => set (s1 := fold_left g off s); set (dl := del) end.
+           assert (S1 : Same s s1) by (apply Same_fold; intros; apply make_offline_Same).
+           assert (I1 : InvP s1) by (apply fold_left_InvP; [intros; apply make_offline_InvP; auto|apply (J_inv s r Js)]).
+           destruct (fold_delete_offers dl s1 I1) as (FA & _). cbn zeta in FA. rewrite FA.
+           rewrite (proj1 S1), (proj2 S1). reflexivity.
+      * intros x H. apply (J_dom s r Js). apply (age_support c now (r_map r) x H).
   - (* name update *)
     destruct (name_unit c s r kd k name Js) as (CH & Jn).
+    split; [|split].
+    + intros x. rewrite CH, (J_chan s r Js). reflexivity.
+    + rewrite CH, (J_chan s r Js). constructor.
+    + exact Jn.
+  - (* DHCPv4Update *)
+    destruct (update_unit c s r m k name now Js) as (CH & Jn).
+    split; [|split].
+    + intros x. rewrite CH, (J_chan s r Js). reflexivity.
+    + rewrite CH, (J_chan s r Js). constructor.
+    + exact Jn.
+  - (* SetDHCPv4IPOffer *)
+    destruct (offer_unit c s r m k name Js) as (CH & Jn).
     split; [|split].
     + intros x. rewrite CH, (J_chan s r Js). reflexivity.
     + rewrite CH, (J_chan s r Js). constructor.
@@ -796,22 +1144,27 @@ Proof.
     { cbn [step]. unfold capture. destruct (find_mac m (macs (mac_find_or_create m s))) as [e|]; cbn [fst];
         [destruct (m_captured e); [|destruct (m_router e)]|]; cbn [fst hosts chan upd_mac set_macs];
         rewrite ?mfoc_hosts, ?mfoc_chan; auto. }
+    assert (EO : forall m0, eoffer (fst (step c s (Capture m))) m0 = eoffer s m0).
+    { intros m0. cbn [step]. unfold capture. destruct (find_mac m (macs (mac_find_or_create m s))) as [e|]; cbn [fst];
+        [destruct (m_captured e); [|destruct (m_router e)]|]; cbn [fst];
+        rewrite ?eoffer_upd_mac by reflexivity; apply (proj1 (mfoc_Same m s)). }
     destruct EH as [EH EC]. split; [|split].
     + intros x. rewrite EC, (J_chan s r Js). reflexivity.
     + rewrite EC, (J_chan s r Js). constructor.
     + cbn [rnext]. destruct Js as [A B C0 D E F G]. constructor; auto.
       * apply (step_InvR c s (Capture m)). exact A.
       * intros x. unfold abs. cbn [hosts set_chan]. rewrite EH. apply B.
-      * eapply NoOffer_ext; [|apply (NoOffer_capture m s D)]. cbn [step]. destruct (capture m s) as [s' [e|]]; reflexivity.
-      * cbn [hosts set_chan]. rewrite EH. exact E.
+      * intros m0. rewrite (eoffer_ext (fst (step c s (Capture m))) (set_chan [] (fst (step c s (Capture m)))) eq_refl). rewrite EO. apply D.
       * cbn [hosts set_chan]. rewrite EH. exact F.
+      * cbn [hosts set_chan]. rewrite EH. exact G.
   - (* Release *)
     split; [|split].
     + intros x. cbn [step fst release upd_mac chan set_macs]. rewrite (J_chan s r Js). reflexivity.
     + cbn [step fst release upd_mac chan set_macs]. rewrite (J_chan s r Js). constructor.
     + cbn [rnext]. destruct Js as [A B C0 D E F G]. constructor; auto.
       * apply (step_InvR c s (Release m)). exact A.
-      * apply NoOffer_upd_mac; [reflexivity|exact D].
+      * intros m0. cbn [step fst release]. rewrite (eoffer_ext (upd_mac m (set_mcaptured false) s) (set_chan [] (upd_mac m (set_mcaptured false) s)) eq_refl).
+        rewrite eoffer_upd_mac by reflexivity. apply D.
 Qed.
 
 (* ---- histories ---- *)
@@ -836,6 +1189,12 @@ Proof.
   destruct (unit_once c s r u Js OK) as (A & B & Jn). repeat split; auto.
 Qed.
 
+Lemma NoOffer_eoffer s m : NoOffer s -> eoffer s m = IPnone.
+Proof.
+  intros H. unfold eoffer. destruct (find_mac m (macs s)) as [e|] eqn:F; auto.
+  apply find_mac_Some in F. unfold NoOffer in H. rewrite Forall_forall in H. apply H. apply F.
+Qed.
+
 (* ---- NewSession establishes the linking invariant ---- *)
 Theorem new_session_J c now s0 : own_mac c <> rt_mac c -> new_session c now = Ok s0 -> J s0 (rinit c now).
 Proof.
@@ -856,7 +1215,13 @@ Proof.
   pose proof (find_or_create_char _ _ _ _ _ _ F4) as CH4.
   pose proof (foc_chan _ _ _ _ _ _ F4) as CC4. pose proof (NoOffer_foc _ _ _ _ _ _ F4 (proj2 C3)) as NO4.
   inversion H; subst s0. constructor; auto.
-  - apply NoOffer_upd_host. apply NoOffer_upd_mac; [reflexivity|exact NO4].
+  - intros m0. cbn [rinit r_offer]. apply NoOffer_eoffer. apply NoOffer_upd_host. apply NoOffer_upd_mac; [reflexivity|exact NO4].
+  - intros x HX. cbn [rinit r_dom r_map] in *. unfold ref_init, a_put in HX. unfold add_ip. cbn [existsb].
+    destruct (ip_eqb x (rt_ip4 c)) eqn:E1.
+    + ipeq. subst x. destruct (ip_eqb (rt_ip4 c) (own_ip4 c) || false) eqn:E2; simpl; auto.
+      rewrite orb_false_r in E2. ipeq. rewrite E2. auto.
+    + destruct (ip_eqb x (own_ip4 c)) eqn:E2; [|congruence]. ipeq. subst x.
+      destruct (ip_eqb (rt_ip4 c) (own_ip4 c) || false); simpl; auto.
   - intros k h L. cbn [hosts upd_host upd_mac set_hosts set_macs] in L. rewrite hlookup_hupd, CH4, !L3 in L.
     cbn [rinit r_owed existsb]. destruct (ip_eqb (rt_ip4 c) k) eqn:E1.
     + ipeq. subst k. rewrite ip_eqb_refl, orb_true_r. simpl in L. inversion L; subst h.
@@ -1165,7 +1530,7 @@ Qed.
 Lemma units_okb_sound c us : forall s, units_okb c s us = true -> units_ok c s us.
 Proof.
   induction us as [|u rest IH]; simpl; auto. intros s H. apply andb_prop in H. destruct H as [H1 H2].
-  split; [|apply IH; exact H2]. destruct u as [f now|now order|kd k name|m|m]; simpl in *; auto.
+  split; [|apply IH; exact H2]. destruct u as [f now|now order|kd k name|m k name now|m k name|m|m]; simpl in *; auto.
   - apply andb_prop in H1. destruct H1 as [W S]. split; [|apply small_macs_ok; exact S].
     unfold fsum_wf. destruct (f_class f); auto; destruct (f_ip f); auto; try discriminate. unfold ip6_ok. lia.
   - apply andb_prop in H1. destruct H1 as [H1 L]. apply andb_prop in H1. destruct H1 as [ND CO].
@@ -1183,7 +1548,13 @@ Definition ex_units : list dunit :=
     DName KMdns (IP4 3232235522) 5;                                                                                  (* a learned name *)
     DFrame {| f_src := ex_mac2; f_class := FIP4; f_ip := IP4 3232235522; f_arpmac := 0; f_dhcp4 := false |} 31;   (* delivered with repeat traffic *)
     DPurge 400 [IP4 3232235521; IP4 3232235522; IP4 3232235531; IP4 3232235649];
-    DFrame {| f_src := 439804651110; f_class := FIP6; f_ip := IP6 338288524927261089654018896841347694593; f_arpmac := 0; f_dhcp4 := false |} 410 ].
+    DFrame {| f_src := 439804651110; f_class := FIP6; f_ip := IP6 338288524927261089654018896841347694593; f_arpmac := 0; f_dhcp4 := false |} 410;
+    (* a DHCP exchange of an announced, online client that was renamed: offer, update, Notify through the DHCP path *)
+    DFrame {| f_src := ex_mac1; f_class := FIP4; f_ip := IP4 3232235523; f_arpmac := 0; f_dhcp4 := false |} 420;
+    DOffer ex_mac1 (IP4 3232235523) 9;
+    DUpdate ex_mac1 (IP4 3232235523) 9 421;
+    DFrame {| f_src := ex_mac1; f_class := FIP4; f_ip := IP4 0; f_arpmac := 0; f_dhcp4 := true |} 422;
+    DFrame {| f_src := ex_mac1; f_class := FIP4; f_ip := IP4 3232235523; f_arpmac := 0; f_dhcp4 := false |} 423 ].
 
 Lemma ex_units_ok : units_ok std_cfg ex_s0 ex_units.
 Proof. apply units_okb_sound. vm_compute. reflexivity. Qed.
@@ -1204,7 +1575,12 @@ Lemma ex_units_emissions :
     [];
     [(IP4 3232235522, true)];
     [(IP4 3232235522, false); (IP4 3232235531, false)];
-    [(IP6 338288524927261089654018896841347694593, true)] ].
+    [(IP6 338288524927261089654018896841347694593, true)];
+    [(IP4 3232235523, true)];
+    [];
+    [];
+    [(IP4 3232235523, true)];
+    [] ].
 Proof. vm_compute. reflexivity. Qed.
 
 (* toNotification: LLMNR name from the host, the other four from the MAC entry (source comment:
